@@ -228,6 +228,24 @@ def selftest():
         bad, ext, nev, _ = sc.validate(ck, PID, [s], {"clean": mut(list(ev))}, "selftest_" + name)
         results[name] = any(b["rule"] == "PrefixDelivery" for b in bad)
         print(f"selftest: corrupted trace ({name}) rejected:", results[name])
+    # the two internal-contract rules: a SACK on the wire that acknowledges more than arrived; a queue snapshot
+    # that shows fewer unacknowledged chunks than the processed SACKs justify
+    i_sack = next(i for i, e in enumerate(ev) if e["comp"] == "net" and e["dir"] == "B" and any(c["type"] == 3 for c in e["chunks"]))
+    i_snap = next(i for i, e in enumerate(ev) if e["comp"] == "sctp" and e["ev"] == "snap" and e["inst"] == "A" and e["unacked"] > 0)
+
+    def ahead(l):
+        l = list(l)
+        e = json.loads(json.dumps(l[i_sack]))
+        for c in e["chunks"]:
+            if c["type"] == 3:
+                c["cum"] = (c["cum"] + 5) & 0xFFFFFFFF
+        l[i_sack] = e
+        return l
+    for name, mut, rule in (("sack-acknowledges-unreceived", ahead, "AcksOnlyReceived"),
+                            ("chunk-given-up-unacknowledged", lambda l: l[:i_snap] + [dict(l[i_snap], unacked=0, sentq=0)] + l[i_snap + 1:], "AckedOnlyIfCovered")):
+        bad, ext, nev, _ = sc.validate(ck, PID, [s], {"clean": mut(list(ev))}, "selftest_" + name)
+        results[name] = any(b["rule"] == rule for b in bad)
+        print(f"selftest: corrupted trace ({name}) rejected by {rule}:", results[name])
     bad, _, _, _ = sc.validate(ck, PID, [s], by, "selftest_clean")
     print("selftest: unmodified trace accepted:", not bad)
     raise SystemExit(0 if ok1 and all(results.values()) and not bad else 2)
